@@ -14,7 +14,16 @@ SRC = sys.argv[1] if len(sys.argv) > 1 else '/tmp/seeds'
 DST = os.path.join(os.path.dirname(os.path.dirname(os.path.abspath(__file__))), 'seeded')
 
 
+FIRST = {}
+
+
 def main():
+  # optional: log of the first tools/seed_matrix.py run ("C01-C caught 0/2 missed=[...] key")
+  if len(sys.argv) > 2 and os.path.exists(sys.argv[2]):
+    for line in open(sys.argv[2]):
+      parts = line.split()
+      if len(parts) >= 3 and parts[1] == 'caught':
+        FIRST[parts[0]] = ' '.join(parts[1:])[:200]
   kept, rejected = [], []
   for prop in sorted(os.listdir(SRC)):
     pd = os.path.join(SRC, prop)
@@ -58,6 +67,9 @@ def main():
           'checks_run': {k: {'exit': v['exit'], 'keys': v['keys'][:3]} for k, v in caught.items()},
           'caught_by': first_catch,
       }
+      first = FIRST.get(f'{prop}-{x}')
+      if first:
+        meta['first_evaluation_before_strengthening'] = first
       prev = os.path.join(out, 'meta.json')
       if os.path.exists(prev):
         old = json.load(open(prev))
